@@ -95,19 +95,45 @@ class _PointNp:
         return getattr(_real_np, name)
 
 
+class SymText:
+    """Stand-in for bytes(line, "utf-8") in GCodeCore.write when the line is a symbolic str.
+    Contract of the stubbed C call: UTF-8 encoding is injective, so the text is kept as is."""
+
+    def __init__(self, text):
+        self.text = text
+
+    def decode(self, *_a):
+        return self.text
+
+    def __len__(self):
+        return len(self.text)
+
+
+def _core_bytes(*args):
+    if len(args) == 2 and not isinstance(args[0], (bytes, bytearray, int, list, tuple)):
+        return SymText(args[0])
+    return bytes(*args)
+
+
+import gscrib.gcode_core as _core_mod
+
+
 @contextmanager
 def installed():
     old_f, old_p = _fmt_mod.np, _pt_mod.np
     _fmt_mod.np = _FormatterNp()
     _pt_mod.np = _PointNp()
+    _core_mod.bytes = _core_bytes
     TOKENS.clear()
     try:
         yield TOKENS
     finally:
         _fmt_mod.np, _pt_mod.np = old_f, old_p
+        del _core_mod.bytes
 
 
 def install_permanently() -> TokenTable:
     _fmt_mod.np = _FormatterNp()
     _pt_mod.np = _PointNp()
+    _core_mod.bytes = _core_bytes
     return TOKENS
